@@ -10,6 +10,7 @@ from engine.model import src, stmt_key, dotted, AnalysisError
 from engine.util import own_nodes, calls_with_nodes, where, with_exprs
 
 RULES = {
+    "R-02.11": "the reader accepts every value the writer can produce at the edges of a range: for each range refusal of LOC.from_wire_parser (`x < MIN or x > MAX` over the folded constants) the test is evaluated - by the checker, on the expression - at MIN and MAX (must pass) and at MIN-1 and MAX+1 (must refuse)",
     "R-02.10": "a malformed RDATA is a format error whatever helper noticed it: the per-type reader runs entirely inside `with ExceptionWrapper(FormError)` and the wrapper converts every foreign exception, DNS exceptions of other families included (rule of C04 R-04.3, run here directly because C04 adopts C02 rules)",
     "R-02.9": "a field of maximal legal size survives: the constructor validators that every decoder runs accept exactly the interval the wire format allows (C05 R-05.5 adopted: e.g. _as_bytes refuses len > max, not >=)",
     "R-02.8": "names embedded in records decode by the name codec's own bounds: a 63-octet label is legal and pointers go strictly backwards (C01 R-01.3 adopted) - every name-bearing type rests on it",
@@ -335,6 +336,29 @@ def run(model, rep, tier):
                       f"`{b_}` is read from the wire (`{src(a)[:50]}`) and never used: the decoded object gets the constructor's default for that field, so a value whose field is non-default "
                       "does not survive encode-then-decode", stmt=f"wire-value-used {b_}")
     rep.floor("R-02.7", n_read, 120)
+    from engine.minieval import evaluate, Unsupported
+    lw = model.func("dns.rdtypes.ANY.LOC.LOC.from_wire_parser")
+    n_rng = 0
+    for n in ast.walk(lw.node):
+        if not (isinstance(n, ast.If) and any(isinstance(b, ast.Raise) for b in n.body)):
+            continue
+        names = {x.id for x in ast.walk(n.test) if isinstance(x, ast.Name)}
+        consts = sorted(nm_ for nm_ in names if nm_.startswith("_M"))
+        var = sorted(names - set(consts))
+        if len(consts) != 2 or len(var) != 1:
+            continue
+        n_rng += 1
+        try:
+            lo, hi = sorted(int(model.const(lw.module, ast.Name(id=c_, ctx=ast.Load()))) for c_ in consts)
+            fold = lambda nd: model.const(lw.module, nd)
+            verdict = {v: bool(evaluate(n.test, {var[0]: v}, fold)) for v in (lo - 1, lo, hi, hi + 1)}
+            okk = verdict == {lo - 1: True, lo: False, hi: False, hi + 1: True}
+            rep.check(okk, "R-02.11", lw.qualname, where(lw, n), f"`{src(n.test)[:60]}` accepts exactly [{lo}, {hi}]",
+                      f"`{src(n.test)[:70]}` refuses/accepts the wrong edge (refused at lo-1, lo, hi, hi+1: {[verdict[v] for v in (lo - 1, lo, hi, hi + 1)]}, expected [True, False, False, True]): a coordinate at exactly the "
+                      "limit (90 N, 180 E) is built and encoded by the library but its own wire form is rejected", stmt=f"range-edges {var[0]}")
+        except (Unsupported, AnalysisError, ValueError) as e:
+            rep.blind("R-02.11", lw.qualname, where(lw, n), f"range test `{src(n.test)[:50]}` not evaluable: {e}", stmt=f"range-edges {var[0]}")
+    rep.floor("R-02.11", n_rng, 2)
     from rules.c04 import check_wrappers
     check_wrappers(model, rep, "R-02.10")
     rep.share(model, "C05", {"R-05.5"}, "R-02.9", "every from_wire_parser ends in cls(...), whose __init__ validates each field with _as_bytes/_as_uintN")
@@ -346,6 +370,10 @@ def run(model, rep, tier):
 
 
 WITNESSES = [
+    {"id": "c02-loc-reader-upper-bound-exclusive", "rule": "R-02.11", "file": "dns/rdtypes/ANY/LOC.py", "expect": "fires",
+     "old": "        if latitude < _MIN_LATITUDE or latitude > _MAX_LATITUDE:", "new": "        if not _MIN_LATITUDE <= latitude < _MAX_LATITUDE:"},
+    {"id": "c02-twin-loc-reader-chained-closed", "rule": "R-02.11", "file": "dns/rdtypes/ANY/LOC.py", "expect": "silent",
+     "old": "        if latitude < _MIN_LATITUDE or latitude > _MAX_LATITUDE:", "new": "        if not _MIN_LATITUDE <= latitude <= _MAX_LATITUDE:"},
     {"id": "c02-ecs-scope-read-and-dropped", "rule": "R-02.7", "file": "dns/edns.py", "expect": "fires",
      "old": "        return cls(addr, src, scope)", "new": "        return cls(addr, src)"},
     {"id": "c02-bitmap-writer-strips-zero-octets", "rule": "R-02.1", "file": "dns/rdtypes/util.py", "expect": "fires",
